@@ -304,10 +304,21 @@ func stubIndexByte(p *path, _ *frame, a []value) value {
 
 func stubCount(p *path, _ *frame, a []value) value {
 	s, sub := a[0].(Str), a[1].(Str)
-	if !s.IsConcrete() || !sub.IsConcrete() {
-		p.unsupported("strings.Count on symbolic strings")
+	if s.IsConcrete() && sub.IsConcrete() {
+		return p.tc.BV(64, uint64(strings.Count(s.Concrete(), sub.Concrete())))
 	}
-	return p.tc.BV(64, uint64(strings.Count(s.Concrete(), sub.Concrete())))
+	if len(sub.b) == 0 {
+		p.unsupported("strings.Count with an empty separator on symbolic strings")
+	}
+	n, from := 0, 0
+	for {
+		i := p.firstMatch(s, from, sub)
+		if i < 0 {
+			return p.tc.BV(64, uint64(n))
+		}
+		n++
+		from = i + len(sub.b)
+	}
 }
 
 func stubCut(p *path, _ *frame, a []value) value {
